@@ -56,3 +56,6 @@ LEVEL_TEXT = ("The four invariance clauses are theorems about the hash model for
               "BLAKE3 written in Lean) is tied to seqhash.Hash by correspondence on every generated pair, and every pair of real outputs is "
               "judged by the invariance relation itself.")
 LEVEL_NOTE = "Trusted: Lean kernel; harness + polymodel; BLAKE3 is a parameter of the theorems (tested, not verified); ASCII input."
+
+HARNESS_BIN = "run-seq"
+EXTRACT_BINS = ["extract-seq"]
